@@ -18,6 +18,7 @@ class Boom(Exception):
 
 def build(transfer, size, thr, chunk, io, S, fault_at=-1, phase=0, limits=None, prev=False, subs=2):
     """a manager over model executors with one transfer submitted (nothing has run yet)"""
+    ns.install()       # (another engine may have rebound the threading names in this process)
     c = H.Ctx()
     env = c.env = F.Env(fault_at, phase)
     env.sched = S
